@@ -83,6 +83,9 @@ SHAPES = [
     ("string macro in a key name and again below that key", [{"name": "@s", "pattern": "b"}],
      [{"movz@sl": ["%@sl", {"$deref": {"main_reg": "%r@sx"}}]}, {"j@s": {"times": 2}}],
      [{"movzbl": ["%bl", {"$deref": {"main_reg": "%rbx"}}]}, {"jb": {"times": 2}}]),
+    ("string macro in a key name that has a sibling times", [{"name": "@cc", "pattern": "ne"}],
+     [{"j@cc": [S("O")], "times": {"min": 2, "max": 3}}, {"set@cc": [S("Q")], "times": 2}],
+     [{"jne": [S("O")], "times": {"min": 2, "max": 3}}, {"setne": [S("Q")], "times": 2}]),
     ("block macro used with a times body", [SHIFT], [{"@shift": {"times": 2}}, S("X")],
      [{"$or": [S("SHL"), S("SHR")], "times": 2}, S("X")]),
     ("block macro used with a sibling times", [SHIFT], [{"@shift": None, "times": {"min": 0, "max": 3}}, S("X")],
@@ -101,6 +104,29 @@ SHAPES = [
     ("parameterised macro whose argument is a list value", [{"name": "@two", "args": ["ops"], "pattern": [{S("MM"): "ops"}]}],
      [{"@two": {"ops": [S("A1"), S("A2")]}}, {"@two": {"ops": [S("A3")]}}], [{S("MM"): [S("A1"), S("A2")]}, {S("MM"): [S("A3")]}]),
 ]
+
+
+def compiled_regexes(I, program, doc):
+    """every (flag setting, outcome) of compiling the rule document through the real pipeline"""
+    y2r = program.find_class("Yaml2Regex")
+
+    def thunk(I):
+        so = Obj(y2r, {"loaded_file": lift_skeleton(I, doc), "macros_from_terminal_filepath": NONE})
+        pats = I.call_func(y2r.find_method("_get_pattern"), [], {}, so, None, None)
+        from ..models import rule_tree_call
+        tree = rule_tree_call(I, y2r, so, pats)
+        return I.call_func(tree.cls.find_method("get_regex"), [], {}, tree, None, None)
+    out = set()
+    for p in I.explore(thunk):
+        fl = (p.assumed(("truth", "b", "cfg[MnemonicsFullMatch]")), p.assumed(("truth", "b", "cfg[OperandsFullMatch]")))
+        out.add((fl, p.kind, I.expr_of(p.value) if p.kind == "return" else repr(p.exc)[:80]))
+    return out
+
+
+TIMED_TWICE = [("block macro with sibling times used twice", [{"name": "@rep", "pattern": [{"$or": [S("A"), S("B")], "times": 2}]}],
+                ["@rep", S("X"), "@rep"], [{"$or": [S("A"), S("B")], "times": 2}, S("X"), {"$or": [S("A"), S("B")], "times": 2}]),
+               ("block macro with a timed mnemonic used twice", [{"name": "@pp", "pattern": [{S("P"): [S("O")], "times": {"min": 1, "max": 3}}]}],
+                ["@pp", "@pp"], [{S("P"): [S("O")], "times": {"min": 1, "max": 3}}, {S("P"): [S("O")], "times": {"min": 1, "max": 3}}])]
 
 
 def run(ctx) -> None:
@@ -189,24 +215,14 @@ def run(ctx) -> None:
         ctx.extra["factorings"] = n
     # M9: the rule with macros compiles to the same regex as the inlined rule (all 4 flag settings)
     def compiled(doc):
-        def thunk(I):
-            so = Obj(y2r, {"loaded_file": lift_skeleton(I, doc), "macros_from_terminal_filepath": NONE})
-            pats = I.call_func(y2r.find_method("_get_pattern"), [], {}, so, None, None)
-            from ..models import rule_tree_call
-            tree = rule_tree_call(I, y2r, so, pats)
-            return I.call_func(tree.cls.find_method("get_regex"), [], {}, tree, None, None)
-        out = set()
-        for p in I.explore(thunk):
-            fl = (p.assumed(("truth", "b", "cfg[MnemonicsFullMatch]")), p.assumed(("truth", "b", "cfg[OperandsFullMatch]")))
-            out.add((fl, p.kind, I.expr_of(p.value) if p.kind == "return" else repr(p.exc)[:80]))
-        return out
-    twice = [("block macro with sibling times used twice", [{"name": "@rep", "pattern": [{"$or": [S("A"), S("B")], "times": 2}]}],
-              ["@rep", S("X"), "@rep"], [{"$or": [S("A"), S("B")], "times": 2}, S("X"), {"$or": [S("A"), S("B")], "times": 2}]),
-             ("block macro with a timed mnemonic used twice", [{"name": "@pp", "pattern": [{S("P"): [S("O")], "times": {"min": 1, "max": 3}}]}],
-              ["@pp", "@pp"], [{S("P"): [S("O")], "times": {"min": 1, "max": 3}}, {S("P"): [S("O")], "times": {"min": 1, "max": 3}}])]
+        return compiled_regexes(I, ctx.p, doc)
+    twice = TIMED_TWICE
     for label, macros, pattern, inlined in [(a, b, c, d) for a, b, c, d in SHAPES] + twice:
         with_m = compiled({"macros": macros, "pattern": pattern})
         manual = compiled({"pattern": inlined})
+        if not any(k == "return" for _, k, _ in manual):
+            from ..facts import AnalysisError
+            raise AnalysisError(f"C13 shape '{label}': the inlined rule compiles under no flag setting (the shape compares nothing)")
         diff = sorted(with_m ^ manual, key=str)
         ctx.check(not diff, "C13.M9.compiles-to-the-same-regex", f"produce_regex[{label}]", (str(diff[0]) if diff else "")[:300],
                   f"the rule written with macros compiles to the same regex as the inlined rule ({label})")
